@@ -35,7 +35,7 @@ def main():
         if args.ids and sid not in args.ids:
             continue
         meta = json.load(open(os.path.join(d, "meta.json")))
-        prop = meta["property"]
+        prop = meta.get("evaluated_with_check") or meta["property"]
         wt = "/var/tmp/seeded_wt_%s_%d" % (sid, os.getpid())
         sh(["git", "-C", REPO, "worktree", "add", "-q", "--detach", wt, "HEAD"], check=True)
         r = {"property": prop}
